@@ -229,9 +229,36 @@ def search(ctx, disagreeing):
 
 
 def replay(rp) -> int:
-    import jax, jax.numpy as jnp
+    """re-run mh_step on the recorded (current, proposed, correction, seed) and judge it with the oracle"""
+    import jax, jax.numpy as jnp, numpy as np
     from liesel.goose.mh import mh_step
     import liesel.goose as gs
     c = rp["replay"].get("case", rp["replay"])
-    print("replaying", c)
+    if "seed" not in c:
+        print("replay file names no concrete input (broken lemma only):", rp["replay"].get("broken"))
+        return 0
+
+    def val(v):
+        v = str(v)
+        return v if v in SPECIALS else Fraction(v)
+
+    c = {"cur": val(c["cur"]), "prop": val(c["prop"]), "corr": val(c["corr"]), "seed": int(c["seed"])}
+    model = gs.DictInterface(lambda st: st["table"][st["x"]])
+    key = jax.random.PRNGKey(c["seed"])
+    f32 = lambda v: np.float32(to_float(v))
+    state = {"x": jnp.int32(0), "table": jnp.stack([jnp.float32(f32(c["cur"])), jnp.float32(f32(c["prop"]))]),
+             "aux": jnp.float32(7.0)}
+    info, new = mh_step(key, model, {"x": jnp.int32(1)}, state, jnp.float32(f32(c["corr"])))
+    c["code"] = int(info.error_code)
+    c["p"] = from_float(info.acceptance_prob)
+    c["moved"] = bool(info.position_moved)
+    c["x"] = int(new["x"])
+    c["aux_ok"] = float(new["aux"]) == 7.0
+    c["u"] = Fraction(float(jax.random.uniform(key)))
+    r = oracle(c)
+    print({k: str(v) for k, v in c.items()})
+    if r:
+        print("REPLAY FAILS:", r)
+        return 1
+    print("replay passes on the current tree")
     return 0
